@@ -32,7 +32,8 @@ struct Models8 {
     cat: ContiguousCategoricalEntropyModel<u8, Vec<u8>, 8>,
     lookup: ContiguousLookupDecoderModel<u8, Vec<u8>, Box<[u8]>, 8>,
     nclookup: NonContiguousLookupDecoderModel<u32, u8, Vec<(u8, u32)>, Box<[u8]>, 5>,
-    ncdec: NonContiguousCategoricalDecoderModel<u32, u8, Vec<(u8, u32)>, 3>,
+    ncdec: NonContiguousCategoricalDecoderModel<u32, u8, Vec<(u8, u32)>, 8>,
+    quant_i8: LeakilyQuantizedDistribution<f64, i8, u8, Gaussian, 8>,
     lazy: LazyContiguousCategoricalEntropyModel<u8, f32, Vec<f32>, 8>,
     uni4: UniformModel<u8, 4>,
     uni8: UniformModel<u8, 8>,
@@ -46,7 +47,11 @@ impl Models8 {
             // lookup models are those of `Models16` and of the C03/C05 sweeps)
             lookup: ContiguousCategoricalEntropyModel::<u8, Vec<u8>, 8>::from_nonzero_fixed_point_probabilities([100u8, 1, 55, 100], false).unwrap().to_lookup_decoder_model(),
             nclookup: NonContiguousLookupDecoderModel::from_symbols_and_nonzero_fixed_point_probabilities([70u32, 3, 900, 12], [7u8, 1, 16, 8], false).unwrap(),
-            ncdec: NonContiguousCategoricalDecoderModel::from_symbols_and_nonzero_fixed_point_probabilities([70u32, 3, 900], [1u8, 6, 1], false).unwrap(),
+            // searched non-contiguous decoder at PRECISION == Probability::BITS (its cdf ends in a wrapped 2^P)
+            ncdec: NonContiguousCategoricalDecoderModel::from_symbols_and_nonzero_fixed_point_probabilities([70u32, 3, 900], [100u8, 6, 150], false).unwrap(),
+            // quantised model whose support fills the whole symbol type and whose mass sits at the lower end:
+            // garbage quantiles land in the upper leaky tail, the search runs up to Symbol::MAX
+            quant_i8: LeakyQuantizer::<f64, i8, u8, 8>::new(-128..=127).quantize(Gaussian::new(-100.0, 2.0)),
             lazy: LazyContiguousCategoricalEntropyModel::from_floating_point_probabilities_fast(vec![0.3f32, 0.2, 0.5], None).unwrap(),
             uni4: UniformModel::new(10),
             uni8: UniformModel::new(256),
@@ -54,7 +59,7 @@ impl Models8 {
         }
     }
 }
-pub const N_MODELS8: usize = 10;
+pub const N_MODELS8: usize = 11;
 
 macro_rules! decode_with8 {
     ($dec:expr, $m:expr, $k:expr, $map:expr) => {{
@@ -68,7 +73,8 @@ macro_rules! decode_with8 {
             6 => $dec.decode_symbol(&$m.lazy).map(|s| s < 3),
             7 => $dec.decode_symbol($m.uni4).map(|s| s < 10),
             8 => $dec.decode_symbol(&$m.ncdec).map(|s| [70u32, 3, 900].contains(&s)),
-            _ => $dec.decode_symbol($m.uni8).map(|s| s < 256),
+            9 => $dec.decode_symbol($m.uni8).map(|s| s < 256),
+            _ => $dec.decode_symbol(&$m.quant_i8).map(|_s| true),
         };
         $map(r)
     }};
@@ -181,7 +187,7 @@ fn part_w8(part: &str, from: u64, to: u64, want: &str, sink: &mut ChildSink) {
         nd += run_coder!("RangeDecoder<u8,u64>", RangeDecoder::<u8, u64, _>::from_compressed(data.clone()).ok(), only_invalid, range_err);
         nsym.set(nsym.get() + nd);
         // chain coder: the precision is part of the type; run the P=8 models among the pair (and a P=2 pair)
-        let p8 = |k: usize| matches!(k, 1 | 2 | 3 | 5 | 6 | 9);
+        let p8 = |k: usize| matches!(k, 1 | 2 | 3 | 5 | 6 | 8 | 9 | 10);
         if p8(a) && p8(b) {
             macro_rules! chain8 { ($S:ty, $load:ident, $name:expr) => {{
                 match guarded(|| {
@@ -194,6 +200,8 @@ fn part_w8(part: &str, from: u64, to: u64, want: &str, sink: &mut ChildSink) {
                             3 => d.decode_symbol(&m.lookup).map(|s| s < 4),
                             5 => d.decode_symbol(&m.quant).map(|s| (-100..=100).contains(&s)),
                             6 => d.decode_symbol(&m.lazy).map(|s| s < 3),
+                            8 => d.decode_symbol(&m.ncdec).map(|s| [70u32, 3, 900].contains(&s)),
+                            10 => d.decode_symbol(&m.quant_i8).map(|_s| true),
                             _ => d.decode_symbol(m.uni8).map(|s| s < 256),
                         };
                         let r = match r { Ok(b) => R::Sym(b), Err(CoderError::Frontend(constriction::stream::chain::DecoderFrontendError::OutOfCompressedData)) => R::OutOfData, Err(CoderError::Backend(_)) => unreachable!() };
@@ -346,7 +354,7 @@ pub fn run(report: &Report) {
     report.bound("every u8 string of length <= 2 (thorough 3) and truncated/extended valid streams x 100 model programs on 7 stream decoders and the chain coder; u16 strings over boundary words x 49 programs on 4 decoders");
     report.assume("each chunk of cases runs in a child process with a watchdog: aborts (out-of-bounds under std's unsafe-precondition checks), signals and hangs are outcomes of a case, not crashes of the check");
     report.require("symbols_decoded");
-    report.sample(json!({"data": ["ff", "00"], "model_program": [3, 5, 3, 5, 3, 5], "models": ["Part<2>", "Part<8>", "categorical", "lookup-contiguous", "lookup-non-contiguous(P=5)", "quantised Gaussian", "lazy categorical", "uniform(10)@4", "non-contiguous(P=3)", "uniform(256)@8"]}));
+    report.sample(json!({"data": ["ff", "00"], "model_program": [3, 5, 3, 5, 3, 5], "models": ["Part<2>", "Part<8>", "categorical", "lookup-contiguous", "lookup-non-contiguous(P=5)", "quantised Gaussian", "lazy categorical", "uniform(10)@4", "non-contiguous(P=8, full precision)", "uniform(256)@8", "quantised Gaussian over all of i8"]}));
     run_with(report, "C10");
 }
 
